@@ -4,35 +4,9 @@
   (`one` for a single value, `many` for several — the lists that `from_dict` pops).
 -/
 import PgProofs.GenoDict2
+import PgModel.Geno.DictCond
 namespace Pg.Geno
 open DNA
-
-/-- The `_put` calls of one node (`_dump_node`, base.py:1155-1187), any options. -/
-def nodePuts (o : Opts) : BDNA → List (String × DV)
-  | .mk v bound cs =>
-    match bound, v with
-    | some dp, .int i =>
-      if dp.kind == .choice then
-        let x := fmtChoice o dp i (BDNA.mk v bound cs).erase
-        match dp.sub with
-        | some _ =>
-          (if o.multi != 0 then [(keyOf o dp.name (dp.parentId.getD []), x)] else []) ++
-          (if needsSubchoiceKey o dp then [(keyOf o dp.name dp.id, x)] else [])
-        | none => [(keyOf o dp.name dp.id, x)]
-      else [(keyOf o dp.name dp.id, if o.valueType == 1 then .dna (BDNA.mk v bound cs).erase else .val v)]
-    | some dp, v' =>
-      if dp.kind != .choice then
-        [(keyOf o dp.name dp.id, if o.valueType == 1 then .dna (BDNA.mk v bound cs).erase else .val v')]
-      else []
-    | none, _ => []
-
-mutual
-  def puts (o : Opts) : BDNA → List (String × DV)
-    | .mk v bound cs => nodePuts o (.mk v bound cs) ++ putsList o cs
-  def putsList (o : Opts) : List BDNA → List (String × DV)
-    | [] => []
-    | c :: cs => puts o c ++ putsList o cs
-end
 
 mutual
   theorem dumpNode_eq (o : Opts) : ∀ (b : BDNA) (dict : List (String × DE)),
@@ -160,10 +134,6 @@ theorem dictGet_put_other (dict : List (String × DE)) (k k' : String) (v : DV) 
     exact dictGet_append_other k k' _ hne dict
 
 /-! ### the look-up theorem -/
-
-/-- The values put under `k`, in order. -/
-def collectVals (k : String) (es : List (String × DV)) : List DV :=
-  (es.filter (·.1 == k)).map (·.2)
 
 def appendAll (e : Option DE) : List DV → Option DE
   | [] => e
